@@ -211,6 +211,8 @@ def sliceReadU64 (b : Bytes) : Res Nat := if b.length < 8 then .err else .ok (le
 def sliceReadU32 (b : Bytes) : Res Nat := if b.length < 4 then .err else .ok (leVal (b.take 4))
 def sliceReadU16 (b : Bytes) : Res Nat := if b.length < 2 then .err else .ok (leVal (b.take 2))
 
+/-- `<&[T; N]>::try_from(slice)` / `slice.try_into()`: `Err` unless the slice has exactly `n` elements -/
+def tryIntoArray {α} (l : List α) (n : Nat) : Res (List α) := if l.length = n then .ok l else .err
 /-- byteorder write into a fixed-size `&mut [u8]`: overwrites the prefix; `Err(WriteZero)` when it does not fit -/
 def sliceWrite (dst data : Bytes) : Res Bytes :=
   if dst.length < data.length then .err else .ok (data ++ dst.drop data.length)
